@@ -1,4 +1,329 @@
-import AGH.Spec.Record
+/-
+C08 — ignored names/clients and un-anonymised addresses never reach the query
+log or the statistics.  Property theorems only; helper lemmas live in
+AGH/Lemmas/Record*.lean and AGH/Lemmas/IgnoreNorm.lean.
+
+All statements are about the executable model of AGH/Model/Record.lean (tied
+to the Go code by the correspondence check) and quantify over every state,
+configuration, client table, ignore list, query and operation history.
+-/
+import AGH.Lemmas.RecordStep
+import AGH.Lemmas.IgnoreNorm
 namespace AGH.C08
-theorem C08_placeholder : True := trivial
+open AGH AGH.Bytes
+
+/-! ## The monitor accepts every run of the model -/
+
+/-- From any configuration the storage accepts, along any history of valid
+operations (queries, flushes, live changes of both ignore lists, of the
+anonymisation switch and of the clients' flags, removals, log searches,
+statistics reads), every observable result passes the spec monitor. -/
+theorem C08_model_meets_spec (a : ResetArgs) (s0 : State) (h0 : reset a = some s0)
+    (ops : List Op) (hv : ∀ op ∈ ops, op.valid = true) : monitoredRun s0 ops = true := by
+  have hi0 : Inv s0 := by
+    simp only [reset, Option.map_eq_some_iff] at h0
+    obtain ⟨cs, _, rfl⟩ := h0
+    intro e he
+    simp at he
+  suffices h : ∀ (ops : List Op) (s : State), Inv s → (∀ op ∈ ops, op.valid = true) → monitoredRun s ops = true from
+    h ops s0 hi0 hv
+  intro ops
+  induction ops with
+  | nil => intro s _ _; rfl
+  | cons op rest ih =>
+    intro s hi hv
+    have hop := hv op (List.mem_cons_self ..)
+    simp only [monitoredRun, specOK, Bool.and_eq_true]
+    refine ⟨?_, ih _ (Inv_step hi op hop) (fun o ho => hv o (List.mem_cons_of_mem _ ho))⟩
+    rw [specStep_model hi op hop]
+    rfl
+
+/-- Every reachable state stores only valid canonical addresses (used by the
+reporting theorems). -/
+theorem C08_reachable_inv (a : ResetArgs) (s0 : State) (h0 : reset a = some s0)
+    (ops : List Op) (hv : ∀ op ∈ ops, op.valid = true) : Inv (run s0 ops) := by
+  have hi0 : Inv s0 := by
+    simp only [reset, Option.map_eq_some_iff] at h0
+    obtain ⟨cs, _, rfl⟩ := h0
+    intro e he
+    simp at he
+  suffices h : ∀ (ops : List Op) (s : State), Inv s → (∀ op ∈ ops, op.valid = true) → Inv (run s ops) from
+    h ops s0 hi0 hv
+  intro ops
+  induction ops with
+  | nil => intro s hi _; exact hi
+  | cons op rest ih =>
+    intro s hi hv
+    exact ih _ (Inv_step hi op (hv op (List.mem_cons_self ..))) (fun o ho => hv o (List.mem_cons_of_mem _ ho))
+
+/-! ## Anonymisation -/
+
+/-- `AnonymizeIP` zeroes the last 16 bits of an IPv4 (also IPv4-mapped) address
+and the last 80 bits of an IPv6 address, keeps the length, and is idempotent. -/
+theorem C08_anon_mask (a : Bytes) :
+    (a.length = 4 ∨ a.length = 16 → masked (canon (anonymize a)) = true) ∧
+    (anonymize a).length = a.length ∧
+    anonymize (anonymize a) = anonymize a :=
+  ⟨masked_canon_anonymize a, anonymize_length a, anonymize_idem a⟩
+
+/-- With anonymisation on, whatever a query adds to the memory buffer or to the
+statistics carries a masked address (a statistics key is either the ClientID
+or the masked address). -/
+theorem C08_anon_recorded_masked (s : State) (q : Query) (hq : q.addr.length = 4 ∨ q.addr.length = 16)
+    (ha : s.conf.anon = true) :
+    (∀ e ∈ (processQuery s q).mem, e ∈ s.mem ∨ masked e.ip = true) ∧
+    (∀ x ∈ grown (processQuery s q).sClients s.sClients, keyMasked x = true) := by
+  rw [processQuery_eq]
+  constructor
+  · intro e he
+    simp only at he
+    by_cases hc : logCond s q = true
+    · rw [if_pos hc] at he
+      rcases List.mem_append.mp he with he | he
+      · exact Or.inl he
+      · right
+        simp only [List.mem_singleton] at he
+        subst he
+        simp only [logEntry, ha]
+        exact masked_ipMut_true hq
+    · rw [if_neg hc] at he; exact Or.inl he
+  · intro x hx
+    simp only at hx
+    by_cases hc : countCond s q = true
+    · rw [if_pos hc] at hx
+      have := grown_bump hx
+      subst this
+      unfold statKey
+      by_cases hcid : q.cid ≠ []
+      · rw [if_pos hcid]; rfl
+      · rw [if_neg hcid]
+        simp only [keyMasked, ha]
+        exact masked_ipMut_true hq
+    · rw [if_neg hc, grown_self] at hx
+      simp at hx
+
+/-- With anonymisation on, every address the log API reports is masked — also
+for records that were stored while it was off. -/
+theorem C08_anon_reported_masked (a : ResetArgs) (s0 : State) (h0 : reset a = some s0)
+    (ops : List Op) (hv : ∀ op ∈ ops, op.valid = true)
+    (ha : (run s0 ops).conf.anon = true) :
+    ∀ r ∈ search (run s0 ops), masked r.ip = true := by
+  intro r hr
+  obtain ⟨e, he, _, rfl⟩ := mem_search hr
+  simp only [report, ha]
+  exact masked_ipMut_true (C08_reachable_inv a s0 h0 ops hv e he)
+
+/-! ## Ignored names -/
+
+/-- A query for a name on the query-log ignore list leaves the memory buffer
+and the file untouched; a query for a name on the statistics ignore list
+leaves the statistics untouched. -/
+theorem C08_ignored_name_never_recorded (s : State) (q : Query) :
+    (Ignore.has s.conf.ignQ (Ignore.normalize q.name) = true →
+      (processQuery s q).mem = s.mem ∧ (processQuery s q).file = s.file) ∧
+    (Ignore.has s.conf.ignS (Ignore.normalize q.name) = true →
+      (processQuery s q).sClients = s.sClients ∧ (processQuery s q).sDomains = s.sDomains) := by
+  rw [processQuery_eq]
+  constructor
+  · intro h
+    have : logCond s q = false := logCond_false_of_name (by simpa [nameIgnoredLog] using h)
+    simp [this]
+  · intro h
+    have : countCond s q = false := countCond_false_of_name (by simpa [nameIgnoredStat] using h)
+    simp [this]
+
+/-- … for every letter case of the name and with or without the trailing dot:
+the decision depends only on the lower-cased name without one final dot. -/
+theorem C08_name_normalization (n variant : Bytes) (hne : n ≠ []) (hnd : n.getLast? ≠ some dot)
+    (hcase : lower variant = lower n) :
+    Ignore.normalize variant = Ignore.normalize n ∧
+    Ignore.normalize (variant ++ [dot]) = Ignore.normalize n := by
+  refine ⟨Ignore.normalize_eq_of_lower_eq hcase, ?_⟩
+  have h1 : lower (variant ++ [dot]) = lower (n ++ [dot]) := by
+    simp only [lower, List.map_append] at hcase ⊢
+    rw [hcase]
+  rw [Ignore.normalize_eq_of_lower_eq h1]
+  exact Ignore.normalize_append_dot hne hnd
+
+/-! ## Ignored clients -/
+
+/-- A query from a client marked `ignore_querylog` — the persistent client
+identified, for the REAL address of the query, by ClientID, exact address,
+narrowest subnet or DHCP MAC, in that precedence — is not recorded in the
+query log, whether anonymisation is on or off; likewise `ignore_statistics`. -/
+theorem C08_ignored_client_never_recorded (s : State) (q : Query) :
+    (fromIgnoredLog s.conf q.cid (canon q.addr) = true →
+      (processQuery s q).mem = s.mem ∧ (processQuery s q).file = s.file) ∧
+    (fromIgnoredStat s.conf q.cid (canon q.addr) = true →
+      (processQuery s q).sClients = s.sClients ∧ (processQuery s q).sDomains = s.sDomains) := by
+  rw [processQuery_eq]
+  constructor
+  · intro h
+    simp [logCond_false_of_client h]
+  · intro h
+    simp [countCond_false_of_client h]
+
+/-- The same in plain terms for the commonest case (F4's shape): a query without
+ClientID whose real address is an exact-address identifier of some persistent
+client, all such clients being flagged, is not logged — for every state of the
+anonymisation switch. -/
+theorem C08_ignored_exact_ip_client (s : State) (q : Query) (hcid : q.cid = [])
+    (hex : ∃ c ∈ s.conf.clients, canon q.addr ∈ c.ips)
+    (hall : ∀ c ∈ s.conf.clients, canon q.addr ∈ c.ips → c.ignLog = true) :
+    (processQuery s q).mem = s.mem := by
+  apply ((C08_ignored_client_never_recorded s q).1 _).1
+  obtain ⟨c, hc, hip⟩ := hex
+  have hl1 : s.conf.clients.filter (cidMatch · q.cid) = [] := by
+    apply filter_eq_nil_of
+    intro x _
+    simp [cidMatch, hcid]
+  have hin : c ∈ s.conf.clients.filter (·.ips.contains (canon q.addr)) :=
+    mem_filter_of hc (by simpa using hip)
+  have hne : (s.conf.clients.filter (·.ips.contains (canon q.addr))).isEmpty = false := by
+    cases hl : s.conf.clients.filter (·.ips.contains (canon q.addr)) with
+    | nil => rw [hl] at hin; simp at hin
+    | cons _ _ => rfl
+  simp only [fromIgnoredLog, ownersAt, ownersByAddr, hl1, List.isEmpty_nil, Bool.not_true,
+    Bool.false_eq_true, if_false, hne, Bool.not_false, if_true, Bool.true_and]
+  apply List.all_eq_true.mpr
+  intro x hx
+  obtain ⟨hxc, hxp⟩ := List.mem_filter.mp hx
+  exact hall x hxc (by simpa using hxp)
+
+/-- The code's sequential client search over `[clientID, realIP]` (both the
+query log's `findMultiple`/`FindLoose` and the statistics'
+`shouldCountClient`/`Find`) is sound and complete for the declarative owner
+set: it finds a client iff one is identified, and the one it finds is
+identified at the strongest level present. -/
+theorem C08_finder_agrees_with_precedence (cs : List PClient) (ls : Leases) (cid a : Bytes) :
+    (∀ c, modelOwner cs ls cid a = some c → c ∈ ownersAt cs ls cid a) ∧
+    (ownersAt cs ls cid a ≠ [] → ∃ c, modelOwner cs ls cid a = some c) ∧
+    findMultiple cs ls (idsOf cid a) = (modelOwner cs ls cid a).map (·.ignLog) ∧
+    shouldCountClient cs ls (idsOf cid a) =
+      (match modelOwner cs ls cid a with | some c => !c.ignStat | none => true) :=
+  ⟨fun _ h => modelOwner_mem h, modelOwner_isSome, findMultiple_eq cs ls cid a, shouldCountClient_eq cs ls cid a⟩
+
+/-! ## Disk, and what other operations can do -/
+
+/-- Nothing but a query adds a record: every other operation leaves the records
+held in file and memory together, and the statistics counters, exactly as they
+were; a flush moves the memory records to the end of the file. -/
+theorem C08_only_queries_record (s : State) (op : Op) (h : ∀ q, op ≠ .query q) :
+    (step s op).1.file ++ (step s op).1.mem = s.file ++ s.mem ∧
+    (step s op).1.sClients = s.sClients ∧ (step s op).1.sDomains = s.sDomains := by
+  cases op with
+  | query q => exact absurd rfl (h q)
+  | flush => simp [step, flush]
+  | qlogConf en an ign => simp [step]
+  | statsConf en ign => simp [step]
+  | setFlags n lg st =>
+    simp only [step]
+    cases setFlags s.conf.clients n lg st <;> simp
+  | rmClient n =>
+    simp only [step]
+    cases rmClient s.conf.clients n <;> simp
+  | search => simp [step]
+  | stats => simp [step]
+
+/-- History form of "never recorded, neither in memory nor on disk": after any
+history, every record held in the file or in the memory buffer either was
+there at the start or is the record of a query of the history which, in the
+configuration in force when it was processed, was neither for an ignored name
+nor from an ignored client. -/
+theorem C08_every_stored_record_justified (ops : List Op) (s : State) :
+    ∀ e ∈ (run s ops).file ++ (run s ops).mem,
+      e ∈ s.file ++ s.mem ∨
+      ∃ pre q post, ops = pre ++ Op.query q :: post ∧ RecordedBy (run s pre) q e := by
+  induction ops generalizing s with
+  | nil => intro e he; exact Or.inl he
+  | cons op rest ih =>
+    intro e he
+    simp only [run] at he
+    rcases ih (step s op).1 e he with h | ⟨pre, q, post, hops, hrec⟩
+    · -- e is in the stores right after `op`
+      by_cases hq : ∃ q, op = .query q
+      · obtain ⟨q, rfl⟩ := hq
+        simp only [step, processQuery_eq] at h
+        by_cases hc : logCond s q = true
+        · rw [if_pos hc] at h
+          rcases List.mem_append.mp h with h | h
+          · exact Or.inl (List.mem_append_left _ h)
+          · rcases List.mem_append.mp h with h | h
+            · exact Or.inl (List.mem_append_right _ h)
+            · right
+              simp only [List.mem_singleton] at h
+              refine ⟨[], q, rest, rfl, h, ?_, ?_⟩
+              · show nameIgnoredLog s.conf q.name = false
+                cases hn : nameIgnoredLog s.conf q.name
+                · rfl
+                · rw [logCond_false_of_name hn] at hc; cases hc
+              · show fromIgnoredLog s.conf q.cid (canon q.addr) = false
+                cases hn : fromIgnoredLog s.conf q.cid (canon q.addr)
+                · rfl
+                · rw [logCond_false_of_client hn] at hc; cases hc
+        · rw [if_neg hc] at h
+          exact Or.inl h
+      · have hq' : ∀ q, op ≠ .query q := fun q hqq => hq ⟨q, hqq⟩
+        rw [(C08_only_queries_record s op hq').1] at h
+        exact Or.inl h
+    · right
+      exact ⟨op :: pre, q, post, by rw [hops]; rfl, hrec⟩
+
+/-! ## The log API -/
+
+/-- Every record the log API returns — from the memory buffer or from the file —
+is the report of a stored record whose name is not on the CURRENT ignore list
+and whose client (by the stored ClientID and address) is not CURRENTLY marked
+`ignore_querylog`. -/
+theorem C08_search_refilters (s : State) :
+    ∀ r ∈ search s, ∃ e ∈ s.mem ++ s.file, r = report s.conf e ∧
+      Ignore.has s.conf.ignQ e.name = false ∧ fromIgnoredLog s.conf e.cid e.ip = false := by
+  intro r hr
+  obtain ⟨e, he, hk, rfl⟩ := mem_search hr
+  obtain ⟨hn, hc⟩ := keeps_sound hk
+  exact ⟨e, he, rfl, hn, hc⟩
+
+/-! ## Non-vacuity -/
+
+section Examples
+
+def exClient : PClient :=
+  { name := [99], ignLog := true, ignStat := true, ips := [[192, 168, 1, 5]], nets := [], macs := [], cids := [] }
+
+/-- "||tracker.io^" -/
+def exRule : Bytes := [124, 124, 116, 114, 97, 99, 107, 101, 114, 46, 105, 111, 94]
+/-- "ADS.Tracker.IO." -/
+def exName : Bytes := [65, 68, 83, 46, 84, 114, 97, 99, 107, 101, 114, 46, 73, 79, 46]
+
+def exConf : Conf :=
+  { anon := true, refuseAny := false, qlogOn := true, statsOn := true,
+    ignQ := [exRule], ignS := [], clients := [exClient], leases := [] }
+
+def exState : State := { conf := exConf, mem := [], file := [], sClients := [], sDomains := [] }
+
+/-- F4's witness: with anonymisation on, client 192.168.1.5 is still found ignored. -/
+example : fromIgnoredLog exConf [] (canon [192, 168, 1, 5]) = true := by decide
+/-- … also when the query arrives from the IPv4-mapped form of the address. -/
+example : fromIgnoredLog exConf [] (canon [0, 0, 0, 0, 0, 0, 0, 0, 0, 0, 255, 255, 192, 168, 1, 5]) = true := by decide
+/-- A neighbour in the same /16 is not ignored, is recorded, and is recorded masked. -/
+example : (processQuery exState { name := [97, 46], qtype := 1, addr := [192, 168, 1, 6], cid := [] }).mem =
+    [{ name := [97], ip := [192, 168, 0, 0], cid := [] }] := by decide
+/-- The ignore list matches a subdomain in any letter case with the trailing dot. -/
+example : Ignore.has exConf.ignQ (Ignore.normalize exName) = true := by decide
+/-- … and does not match a name that merely ends in the same letters. -/
+example : Ignore.has exConf.ignQ (Ignore.normalize [120, 116, 114, 97, 99, 107, 101, 114, 46, 105, 111]) = false := by decide
+/-- The root rule `|.^` matches the root name only. -/
+example : Ignore.has [[124, 46, 94]] (Ignore.normalize [46]) = true ∧
+    Ignore.has [[124, 46, 94]] (Ignore.normalize [97, 46]) = false := by decide
+def exObj : ClientObj := { name := [99], ignLog := true, ignStat := true, ids := [CID.ip [192, 168, 1, 5]] }
+
+def exArgs : ResetArgs :=
+  { anon := true, refuseAny := false, qlogOn := true, statsOn := true,
+    ignQ := [exRule], ignS := [], clients := [exObj], leases := [] }
+
+/-- The hypotheses of `C08_model_meets_spec` are satisfiable by a non-trivial table. -/
+example : reset exArgs = some exState := rfl
+
+end Examples
+
 end AGH.C08
